@@ -643,6 +643,10 @@ def check_wigner_angle_table(ctx: Check, tree: Tree) -> None:
                 parts = txt.split()
                 if d.index < len(parts):
                     stem = parts[d.index].split("{")[0]
+            elif isinstance(d.value, ast.Call) and unparse(d.value.func) in {"sp.Symbol", "sympy.Symbol", "Symbol"} and d.value.args:
+                arg0 = d.value.args[0]
+                txt = "".join(str(v.value) if isinstance(v, ast.Constant) else "{}" for v in arg0.values) if isinstance(arg0, ast.JoinedStr) else (arg0.value if isinstance(arg0, ast.Constant) else "")
+                stem = txt.split("{")[0]
         names.append(stem)
     if sorted(n or "" for n in names) != ["alpha", "beta", "gamma"]:
         raise AnalysisError(f"{fn.qual}: angle symbols are {names}, expected alpha/beta/gamma + suffix")
@@ -1034,12 +1038,63 @@ def check_wigner_rotation_matrix(ctx: Check, tree: Tree) -> None:
     ctx.verdict(ok, "R-WIRING", f"{ids.qual}::order", tree.loc(ids.node), "the boost chain runs from the first resonance down to the state (reversed decay chain without the initial state)")
 
 
+def check_symbols_not_split(ctx: Check, tree: Tree) -> None:
+    """R-SYMSPLIT: sp.symbols() splits its argument at commas and spaces.  A name that contains text
+    interpolated from a naming function may contain both: the helicity / boost-chain suffix of a state
+    below a nested resonance is e.g. `_2^23,123`.  `a, b, c = sp.symbols(f"a{suffix} b{suffix} c{suffix}")`
+    then raises `too many values to unpack` - formulating an axis-angle aligned model fails for every
+    decay with four or more final states.  Interpolated parts of an sp.symbols() string must be
+    separator-free by construction: integer ids, or functions that join digits without separator."""
+    from ..dataflow import RD as _RD
+
+    def may_contain_separator(qual: str, depth: int = 0) -> bool:
+        fn = tree.funcs.get(qual)
+        if fn is None or depth > 3:
+            return False
+        for n in walk_function(fn.node, nested=True):
+            if isinstance(n, ast.Constant) and isinstance(n.value, str) and ("," in n.value or " " in n.value) and not (
+                isinstance(getattr(n, "_parent", None), ast.Expr)):
+                par = getattr(n, "_parent", None)
+                # separators that end up in the returned text: f-string parts, join separators, concatenation
+                if isinstance(par, (ast.JoinedStr, ast.BinOp)) or (isinstance(par, ast.Attribute) and par.attr == "join"):
+                    return True
+            if isinstance(n, ast.Call):
+                callee = tree.callee(n, tree.func_of(n) or fn)
+                if callee and callee != qual and callee.startswith("ampform") and may_contain_separator(callee, depth + 1):
+                    return True
+        return False
+
+    n = 0
+    for q, fn in sorted(tree.funcs.items()):
+        if not q.startswith("ampform") or fn.outer is not None:
+            continue
+        rd = None
+        for call in [c for c in walk_function(fn.node, nested=True) if isinstance(c, ast.Call) and unparse(c.func) in {"sp.symbols", "sympy.symbols", "symbols"} and c.args and isinstance(c.args[0], ast.JoinedStr)]:
+            rd = rd or _RD(fn.node)
+            n += 1
+            bad = []
+            for part in call.args[0].values:
+                if not isinstance(part, ast.FormattedValue):
+                    continue
+                exprs = [part.value] + [d.value for d in rd.closure(rd.uses(part.value)) if isinstance(d.value, ast.AST)]
+                for e in exprs:
+                    for c in [x for x in ast.walk(e) if isinstance(x, ast.Call)]:
+                        callee = tree.callee(c, tree.func_of(call) or fn)
+                        if callee and callee.startswith("ampform") and may_contain_separator(callee):
+                            bad.append(f"`{{{unparse(part.value)}}}` comes from {callee.split('::')[-1]}(), whose result can contain `,` or a space")
+            ctx.verdict(not bad, "R-SYMSPLIT", f"{q}::symbols-{len(call.args[0].values)}", tree.loc(call),
+                        f"{q}: `{unparse(call)[:70]}` interpolates only separator-free text into sp.symbols()", sorted(set(bad)) or None)
+    if n == 0:
+        ctx.ok("R-SYMSPLIT", "src/ampform", "no sp.symbols() call with interpolated text")
+
+
 def run(ctx: Check, tree: Tree) -> None:
     ctx.decided += [
         "no `.remove(x)` reachable in the package can raise: each is dominated by a membership test, inside a handler, or covered by a recorded structural invariant (R-GUARD)",
         "the PoolSum of a helicity/Wigner rotation ranges over create_spin_range(s) of the same s that is j of its Wigner-D, and every caller passes spin and masslessness of the rotated state (R-WIRING)",
         "create_spin_range loops from -s in steps of +1 while <= s (R-RANGE)",
         "DPD alignment: spin, helicity symbols, state index and pool of every Wigner-d refer to the same outer state (R-WIRING)",
+        "text interpolated into sp.symbols() is separator-free (R-SYMSPLIT): defining the Wigner angles cannot fail for nested states",
         "compute_wigner_angles extracts (alpha, beta, gamma) from the Wigner rotation matrix as in Marangotto (2019) B.2-4 (R-TABLE)",
         "axis-angle chain: the k-th index pair carries the angles of the k-th state on the way up from the rotated state (R-CHAINORDER)",
         "no memoised mutable result of helicity.align (e.g. a cached spin range) is written by any caller (R-CACHE)",
@@ -1056,6 +1111,7 @@ def run(ctx: Check, tree: Tree) -> None:
     ctx.section(check_dpd_wiring, ctx, tree)
     ctx.section(check_rotation_chain_order, ctx, tree)
     ctx.section(check_wigner_angle_table, ctx, tree)
+    ctx.section(check_symbols_not_split, ctx, tree)
     ctx.section(check_wigner_rotation_matrix, ctx, tree)
     ctx.section(check_axisangle_amplitude, ctx, tree)
     ctx.section(check_axisangle_structure, ctx, tree)
